@@ -162,6 +162,7 @@ def findings():
         if k["kind"] == "finding":
             out.append(f"* **{k['id']}** is matched by the substring `{k['match']}` of the monitor's message, so any *other* violation of {k['property']} is still reported. "
                        + ("Not repaired because the repair is a new ratio computation at four oracle call sites (not small); the excess is bounded by the denominator truncation, and the Lean witness `adjusted_price_can_exceed_exact` shows the deviation in the model." if k["id"] == "C20-F1" else
+                          "Found by the venue monitors on a multi-seed sweep of the unchanged tree (seed 61): the same truncation as C20-F1, showing in `collateral_to_liquidity` as one native unit above the exact value when that value lies just below a whole number; with the handlers' one-unit tolerance a venue that overpays by two units is accepted (the tokens are the venue's, not marginfi's). Lean witness `conversion_can_exceed_exact`; the monitors name exactly this case (own announcement above the exact value, payment within one unit of it) and report any other overpayment as before." if k["id"] in ("C20-F2", "C03-F1") else
                           "Not repaired: `BankConfig::validate` would have to reject an operational state at creation; the bank is dead on arrival and no user funds can enter it, so it is recorded rather than patched."))
     return "\n".join(out)
 
